@@ -72,13 +72,24 @@ def run(case, idx):
             res['variant_findings'] = lint_file(pv)
         if case.get('caller'):
             # the callee module keeps only its signature-level source (bodies stripped); its generated stub describes it
-            cal = os.path.join(d, lib + '.py')
+            if case.get('dotted'):
+                # the callee lives in a package (module name pkg.helpers); its stub is kept in the flat layout <root>/pkg.helpers.json,
+                # the root being the directory of the linted file
+                pkg = f'pkgc18_{idx}'
+                os.makedirs(os.path.join(d, pkg)); open(os.path.join(d, pkg, '__init__.py'), 'w').write('')
+                cal = os.path.join(d, pkg, 'helpers.py')
+            else:
+                cal = os.path.join(d, lib + '.py')
             open(cal, 'w').write(case['callee_src'])
             sp2 = generate_stub(path=Path(cal), stubs=StubsManager(paths=[Path(d)]))
             res['callee_stub'] = json.load(open(sp2)) if os.path.exists(sp2) else {}
             open(cal, 'w').write(case['callee_stripped'])
             q = os.path.join(d, 'usec18.py')
-            open(q, 'w').write(case['caller'].replace('libc18', lib))
+            if case.get('dotted'):
+                if os.path.exists(sp2): os.replace(sp2, os.path.join(d, pkg + '.helpers.json'))
+                open(q, 'w').write(case['caller'].replace('import libc18', f'import {pkg}.helpers as libc18'))
+            else:
+                open(q, 'w').write(case['caller'].replace('libc18', lib))
             sys.path.insert(0, d)
             try:
                 res['with_stub'] = lint_file(q)
